@@ -598,7 +598,20 @@ class TDMProgram(Program):
 
         for i, _ in enumerate(params):
             if par_is_symbolic(params[i]):
-                params[i] = self.parameters[params[i].name][t % self.timebins]
+                if isinstance(params[i], FreeParameter):
+                    params[i] = self.parameters[params[i].name][t % self.timebins]
+                else:
+                    # an expression of loop variables (e.g. from a decomposition or a merge)
+                    values = {
+                        sym: self.parameters[sym.name][t % self.timebins]
+                        for sym in params[i].free_symbols
+                        if isinstance(sym, FreeParameter) and sym.name in self.parameters
+                    }
+                    value = params[i].xreplace(values)
+                    if not value.free_symbols:
+                        value = complex(value)
+                        value = value.real if value.imag == 0 else value
+                    params[i] = value
 
         # a copy of the operation keeps what is not a parameter: inverse (dagger) flag, post-selection
         # value, dark counts and other keyword settings
